@@ -29,7 +29,7 @@ TEMPLATES = {
 LEVELS = {
     'quick': [
         {'name': 'L1-N3-M2-K2', 'N': 3, 'M': 2, 'K': 2, 'namings': ['rev'], 'send': 1, 'budget_s': 60},
-        {'name': 'L2-N4-M1-K2', 'N': 4, 'M': 1, 'K': 2, 'namings': ['mix'], 'send': 2, 'budget_s': 90},
+        {'name': 'L2-N4-M1-K2', 'N': 4, 'M': 1, 'K': 2, 'namings': ['mix'], 'send': 2, 'constr': 1, 'budget_s': 90},
         {'name': 'L3-N4-M2-K1', 'N': 4, 'M': 2, 'K': 1, 'namings': ['id'], 'send': 0, 'budget_s': 150},
         {'name': 'L4-TATB-M2-K1', 'templates': ['TA', 'TB'], 'M': 2, 'K': 1, 'nevents': 1, 'namings': ['rev'],
          'send': 2, 'budget_s': 90},
@@ -179,7 +179,11 @@ def check_macro(g, inst, cm, st, log, conf_before, info, canary=False):
 
 def harness(g, chart, level, canary=False):
     from sismic.exceptions import NonDeterminismError, ConflictingTransitionsError
+    cons = cg.constructions(chart) if level.get('constr') else [None]
+    moved = cons[g.choice('constr', len(cons))] if len(cons) > 1 else None
     namings = level.get('namings', ['id'])
+    if moved is not None and 'id' not in namings:
+        namings = namings + ['id']      # a stale depth shows only when the tie-breaking name order goes the wrong way
     naming = namings[g.choice('naming', len(namings))]
     counter = [0]
 
@@ -201,7 +205,7 @@ def harness(g, chart, level, canary=False):
             if kind == 'exit' and ident == nst - 2:
                 return "P('ex', %d)\nsend('c', tag=S())" % ident
         return None
-    inst = Inst(g, chart, naming, code_hook=hook, extra_context={'S': S})
+    inst = Inst(g, chart, naming, code_hook=hook, extra_context={'S': S}, moved=moved)
     cm, it = inst.cm, inst.it
     hist = []
     cur = {}
